@@ -338,7 +338,7 @@ func (fv *FuncVer) collectMods(st *State, f *Frame, blocks []*ssa.BasicBlock, ms
 				}
 			case *ssa.Slice:
 				if pt, ok := x.X.Type().Underlying().(*types.Pointer); ok {
-					if n, isB := isByteArray(pt.Elem()); isB && n >= opaqueByteArrayMin {
+					if n, isB := isByteArray(pt.Elem()); isB && n >= fv.ctx.opaqueMin {
 						k, _ := fv.elemsKey(pt.Elem().Underlying().(*types.Array).Elem())
 						ms.heaps[k] = true
 					}
